@@ -23,6 +23,7 @@ type Item struct {
 	Info string
 	Pos  token.Position
 	Kept bool // obligation is assumed afterwards
+	Group string // postcondition of return N ("ret3"): assumed only for later postconditions of the same return
 }
 
 // FnVC accumulates the verification conditions of one function under contract.
@@ -39,6 +40,7 @@ type FnVC struct {
 	assumes    map[string]bool // assumption notes (extern contracts used, etc.)
 	externUsed map[string]bool
 	obligSeq   map[string]int
+	curGroup   string
 	allocs     []Term
 	inputs     []InputVar // symbolic inputs for model extraction
 	outOfSub   []string
@@ -149,7 +151,7 @@ func (vc *FnVC) assume(f Term) {
 }
 
 func splitGuardedConj(t string, depth int) []string {
-	if depth > 6 || !strings.Contains(t, "(forall ") {
+	if depth > 16 || !strings.Contains(t, "(forall ") {
 		return []string{t}
 	}
 	if strings.HasPrefix(t, "(and ") {
@@ -193,10 +195,10 @@ func (vc *FnVC) oblige(name string, reach, cond Term, info string, pos token.Pos
 	f := tImp(reach, cond)
 	if f.S == "true" {
 		// trivially true: still counted as discharged obligation (by simplification)
-		vc.items = append(vc.items, Item{Kind: ItemOblig, Text: "true", Name: vc.uniqueOblig(name), Info: info, Pos: vc.sess.pos(pos), Kept: true})
+		vc.items = append(vc.items, Item{Kind: ItemOblig, Text: "true", Name: vc.uniqueOblig(name), Info: info, Pos: vc.sess.pos(pos), Kept: true, Group: vc.curGroup})
 		return
 	}
-	vc.items = append(vc.items, Item{Kind: ItemOblig, Text: f.S, Name: vc.uniqueOblig(name), Info: info, Pos: vc.sess.pos(pos), Kept: true})
+	vc.items = append(vc.items, Item{Kind: ItemOblig, Text: f.S, Name: vc.uniqueOblig(name), Info: info, Pos: vc.sess.pos(pos), Kept: true, Group: vc.curGroup})
 }
 
 func (vc *FnVC) uniqueOblig(name string) string {
@@ -230,6 +232,10 @@ func (vc *FnVC) Query(i int, pre *Prelude, getModel bool) string {
 			b.WriteString("(assert " + it.Text + ")\n")
 			earlier = append(earlier, it.Text)
 		case ItemOblig:
+			if it.Group != "" && it.Group != vc.items[i].Group {
+				// a postcondition proved at another return statement says nothing about this path
+				continue
+			}
 			if it.Kept && it.Text != "true" {
 				b.WriteString("(assert " + it.Text + ")\n")
 				earlier = append(earlier, it.Text)
